@@ -16,6 +16,7 @@ PktsKN    == <<"key", "non">>
 PktsK     == <<"key">>
 PktsSPKNK == <<"sps", "pps", "key", "non", "key">>
 PktsKAN   == <<"key", "aud", "non">>
+PktsKNSPN == <<"key", "non", "sps", "pps", "non">>
 PktsKNKN  == <<"key", "non", "key", "non">>
 PktsKNNKNNK == <<"key", "non", "non", "key", "non", "non", "key">>
 PktsK4 == <<"key", "non", "non", "key", "non", "non", "key", "non", "non", "key", "non", "non", "key">>
